@@ -21,7 +21,7 @@ ASSUMPTIONS = []
 EXPLANATION = "connect validated before any mutation (Lean: atomicity and idempotence of the wiring step function)"
 
 INVALID = ["first-connected", "second-connected", "both-connected", "repeat", "repeat-flipped", "unknown-name", "unknown-pin",
-           "foreign-structure", "duplicate-add"]
+           "foreign-structure", "duplicate-add", "put-occupied", "put-unknown-target", "put-unknown-source"]
 
 
 def run_sequence(ctx, comps, ops, replay):
@@ -157,6 +157,42 @@ def run_sequence(ctx, comps, ops, replay):
                         r = expect_reject(kind, lambda: real.sol.connect(real.sts[a], p, foreign, "fx"))
                     else:
                         r = expect_reject(kind, lambda: real.sol.connect(foreign, "fx", real.sts[a], p))
+                elif kind.startswith("put-"):
+                    # put() = add + connect in one call: a put that is rejected (target pin connected already / unknown, source pin
+                    # unknown) must leave nothing behind; the placed object is a model or a sub-solver
+                    def new_obj():
+                        m = L.Model(pin_dic={L.Pin("u"): 0, L.Pin("v"): 1}, Smatrix=np.array([[0, 1], [1, 0]], complex))
+                        if y % 2 == 0:
+                            return m
+                        sub = L.Solver()
+                        with sub:
+                            m.put()
+                            L.raise_pins()
+                        return sub
+                    if kind == "put-occupied":
+                        if not links:
+                            continue
+                        (a, p, b, q) = links[x % len(links)]
+                        if z % 2:
+                            a, p = b, q
+                        src, tgt = "u", (real.sts[a], p if z % 4 < 2 else L.Pin(p))
+                    elif kind == "put-unknown-target":
+                        if not spec.present:
+                            continue
+                        a = spec.present[x % len(spec.present)]
+                        src, tgt = "v", (real.sts[a], "nosuchpin" if z % 2 else L.Pin("nosuchpin"))
+                    else:
+                        if not free:
+                            continue
+                        (a, p) = free[x % len(free)]
+                        src, tgt = ("nosuchpin" if z % 2 else L.Pin("nosuchpin")), (real.sts[a], p)
+                    executed.append(("invalid", kind, a))
+                    obj = new_obj()
+
+                    def do_put():
+                        with real.sol:
+                            obj.put(src, tgt)
+                    r = expect_reject(kind, do_put)
                 elif kind == "duplicate-add":
                     if not spec.present:
                         continue
